@@ -234,6 +234,36 @@ func (c c28Case) class() string {
 	return p + "subquery"
 }
 
+// knownDefect returns the narrow, precondition-based signature of the two defects found on the
+// pinned tree ("" = none applies), so that any other disagreement keeps its generic signature.
+func (c c28Case) knownDefect() string {
+	if c.Form == "ts" && c.M1.At != 0 && c.M1.Off != 0 {
+		// rangeEvalTimestampFunctionOverVectorSelector recomputes the offset from @ alone.
+		return "timestamp-of-selector-with-at-ignores-offset"
+	}
+	switch c.Form {
+	case "subq", "subqp", "subq_cot", "cot_subq":
+		if c.M1.At != 0 && (c.M2.Off != 0 || c.M2.At != 0) {
+			start, end := c.T, c.T
+			if c.Range {
+				start, end = c.Start, c.End
+			}
+			step := c.S2
+			if step == 0 {
+				step = c28DefStep
+			}
+			ts := pr_SubqueryTimes(c.M2.time(start, start, end), c.R2, step)
+			if len(ts) > 0 && ts[0] == start {
+				// runSubquery skips re-basing the inner @ offsets when the first subquery step
+				// equals the outer evaluation time although they still contain the subquery's
+				// own offset/@.
+				return "subquery-starting-at-eval-time-misplaces-inner-at"
+			}
+		}
+	}
+	return ""
+}
+
 // c28Compare classifies the difference between expected and got points ("" = equal).
 func c28Compare(exp, got []pr_Point) string {
 	if pr_SamePoints(exp, got) {
@@ -465,7 +495,11 @@ func TestVerifC28(t *testing.T) {
 		if res.Err != nil {
 			r.Violation("query-error", res.Err.Error(), rp)
 		} else if d := c28Compare(exp, got); d != "" {
-			r.Violation(rp.Case.class()+"-"+d, fmt.Sprintf("%s: expected %s got %s", rp.Case.expr(), pr_PointsString(exp), pr_PointsString(got)), rp)
+			sig := rp.Case.class() + "-" + d
+			if k := rp.Case.knownDefect(); k != "" {
+				sig = k
+			}
+			r.Violation(sig, fmt.Sprintf("%s: expected %s got %s", rp.Case.expr(), pr_PointsString(exp), pr_PointsString(got)), rp)
 		}
 		return
 	}
@@ -542,7 +576,11 @@ func TestVerifC28(t *testing.T) {
 				seen++
 			}
 			if d := c28Compare(exp, got); d != "" {
-				r.Violation(c.class()+"-"+d, fmt.Sprintf("%s (lookback %s) over %s: expected %s got %s", c.expr(), pr_Dur(c.L), vx.J(se.Samples), pr_PointsString(exp), pr_PointsString(got)),
+				sig := c.class() + "-" + d
+				if k := c.knownDefect(); k != "" {
+					sig = k
+				}
+				r.Violation(sig, fmt.Sprintf("%s (lookback %s) over %s: expected %s got %s", c.expr(), pr_Dur(c.L), vx.J(se.Samples), pr_PointsString(exp), pr_PointsString(got)),
 					c28Replay{Case: c, Query: c.expr(), Series: *se})
 			}
 			if len(exp) > 0 {
